@@ -250,9 +250,13 @@ var (
 
 // cleanStack makes the text of a recovered panic reproducible: the argument words, pc offsets and
 // the goroutine number differ from run to run, and rapid only shrinks a failure whose message is
-// identical when the case is re-run. Frames below Run (harness, rapid, testing) are dropped.
+// identical when the case is re-run. The frames from Run downwards (harness, rapid, testing) are
+// dropped: rapid calls the property from different places while searching, reproducing and shrinking.
 func cleanStack(s string) string {
-	if i := strings.Index(s, "\nverifharness/p_map.Run("); i >= 0 {
+	if i := strings.Index(s, "verifharness/p_map.Run"); i >= 0 {
+		if j := strings.LastIndexByte(s[:i], '\n'); j >= 0 {
+			i = j
+		}
 		s = s[:i]
 	}
 	s = reHex.ReplaceAllString(s, "_")
